@@ -25,7 +25,7 @@ LINEAR = {"trend", "spline", "vector", "knn-mean", "linear"}
 def pts(rng, n):
     seen, es, ns = set(), [], []
     while len(es) < n:
-        x, y = float(rng.randint(-12, 12)), float(rng.randint(-12, 12))
+        x, y = float(rng.randint(-40, 40)), float(rng.randint(-40, 40))
         if (x, y) not in seen:
             seen.add((x, y))
             es.append(x)
@@ -62,9 +62,9 @@ def build(kind, params):
     raise ValueError(kind)
 
 
-QE = [[0.5, -1.25, 2.0], [1.0, 3.5, -2.0], [0.0, 0.25, 4.0], [-3.0, 2.5, 1.5]]
-QN = [[1.5, 1.0, -2.5], [-0.75, 0.5, 2.0], [0.25, -1.0, 3.5], [3.0, 0.0, -0.5]]
-IQ = ([[0, -1, 2], [3, 1, -2]], [[1, 0, 3], [-2, 2, 1]])
+QE = [[0.5, -1.25, 2.0], [1.0, 13.5, -2.0], [0.0, 0.25, 24.0], [-23.0, 2.5, 1.5]]
+QN = [[1.5, 1.0, -2.5], [-0.75, 10.5, 2.0], [0.25, -1.0, 13.5], [3.0, 0.0, -20.5]]
+IQ = ([[0, -1, 2], [13, 1, -22]], [[1, 0, 3], [-2, 12, 1]])
 
 
 def _has_ties(es, ns):
@@ -77,11 +77,28 @@ def _has_ties(es, ns):
     return False
 
 
+def _degenerate(es, ns):
+    """True if three points are collinear or four are co-circular: the Delaunay triangulation (Linear, Cubic) is then not unique
+    and legitimately depends on the point order — not 'general position'."""
+    import itertools
+    P = [(int(x), int(y)) for x, y in zip(es, ns)]
+    for a, b, c in itertools.combinations(P, 3):
+        if (b[0] - a[0]) * (c[1] - a[1]) - (b[1] - a[1]) * (c[0] - a[0]) == 0:
+            return True
+    for a, b, c, d in itertools.combinations(P, 4):
+        m = [[p[0] - d[0], p[1] - d[1], (p[0] - d[0]) ** 2 + (p[1] - d[1]) ** 2] for p in (a, b, c)]
+        det = (m[0][0] * (m[1][1] * m[2][2] - m[1][2] * m[2][1]) - m[0][1] * (m[1][0] * m[2][2] - m[1][2] * m[2][0])
+               + m[0][2] * (m[1][0] * m[2][1] - m[1][1] * m[2][0]))
+        if det == 0:
+            return True
+    return False
+
+
 def rand_case(rng, kind=None):
     kind = kind or rng.choice(["trend", "trend", "spline", "spline", "vector", "knn-mean", "knn-median", "linear", "cubic"])
     n = rng.choice([6, 8, 9, 10, 12])
     es, ns = pts(rng, n)
-    while kind.startswith("knn") and _has_ties(es, ns):
+    while (kind.startswith("knn") and _has_ties(es, ns)) or (kind in ("linear", "cubic") and _degenerate(es, ns)):
         es, ns = pts(rng, n)
     d1 = [float(rng.randint(-20, 20)) for _ in range(n)]
     d2 = [float(rng.randint(-20, 20)) for _ in range(n)]
